@@ -1,10 +1,14 @@
 """C20 — what TAB inserts for a file name is read back as exactly that file."""
-import os, pty, select, signal, sqlite3, time
+import fcntl, os, pty, select, signal, sqlite3, struct, termios, time
 from .. import core, gens, proc
 from ..core import Case, hx, unhx
 
 ID = "C20"
 NEEDS_BINARY = True
+ASSUMPTIONS = ["names that are not valid UTF-8 are skipped by complete_path (a TODO in the source) and are outside the model (text is List Char)",
+               "names holding `*` together with a backquote or `$` are not generated: running the completed line makes the real shell recurse "
+               "until its stack overflows (the inner command of the substitution globs the name itself); the crash is reported separately",
+               "the directory contents do not change between TAB and Enter"]
 # the special alphabet of the property + plain letters + two multi-byte letters
 SPECIAL = [" ", "'", '"', "\\", "$", "*", "?", "[", "]", "{", "}", ",", "~", "#", "|", "&", ";", "<", ">", "(", ")", "!", "^", "`", "=", "%"]
 ALPHA = SPECIAL + ["é", "日", "a", "b"]
@@ -64,6 +68,12 @@ def mk(entries, ctx, prefix, for_dir, meta, env=ENV, prog="prog"):
 
 
 def valid_name(n):
+    # a name holding `*` together with a backquote or `$` is left out: once completed and run, the inner command of the
+    # substitution is globbed against the directory, finds the name itself and substitutes again without end -- the real
+    # shell dies of a stack overflow (`echo \\`\\*\\`` next to a file named `*` in backquotes; reported, outside this property)
+    # and the outcome (abort or watchdog) cannot be compared
+    if "*" in n and ("`" in n or "$" in n):
+        return False
     return n not in ("", ".", "..") and "/" not in n and "\0" not in n
 
 
@@ -116,6 +126,9 @@ def generate(tier, rng):
     for ctx, n in [("u", "a*b"), ("u", "~a"), ("u", "a$b"), ("u", "{a,b}"), ("u", "a`b`"), ("u", "&"), ("u", "a "), ("u", "a>b"),
                    ("s", "it's"), ("d", 'a"b'), ("d", "a$V"), ("d", "a`b`"), ("d", "a\\b")]:
         single(cases, n, "w")
+    cases.append(mk([("a*b", False), ("axb", False)], "u", "a*", False, {"gen": "w", "ctx": "u", "n": "a*b"}))
+    cases.append(mk([("$a b", False)], "u", "$", False, {"gen": "w", "ctx": "u", "n": "$a b"}))
+    cases.append(mk([("|#", False)], "u", "|", False, {"gen": "w", "ctx": "u", "n": "|#"}))
     kfull = 2 if tier == "quick" else 3
     for n in gens.all_strings(ALPHA, kfull, 1):
         single(cases, n, "e")
@@ -123,10 +136,10 @@ def generate(tier, rng):
         for n in ("a" + s + "b", s + "b", "a" + s):
             single(cases, n, "m")
     r = rng.fork("c20")
-    nr = 400 if tier == "quick" else 4000
+    nr = 1000 if tier == "quick" else 8000
     for _ in range(nr):
         single(cases, rand_name(r, 3, 12), "r")
-    nd = 1500 if tier == "quick" else 20000
+    nd = 4000 if tier == "quick" else 40000
     for _ in range(nd):
         entries = rand_dir(r)
         tops = [e for e in entries if "/" not in e[0]]
@@ -148,7 +161,7 @@ def generate(tier, rng):
                 prefix = r.choice(["zz", "a|", "$V", "~/", "./", "a//"])
         cases.append(mk(entries, ctx, prefix, for_dir, {"gen": "d"}, prog=r.choice(["prog", "cd", "prog", "./argv", "ls"]) if not for_dir else "cd"))
     # escaped_word_start
-    ne = 1500 if tier == "quick" else 20000
+    ne = 4000 if tier == "quick" else 40000
     WS = ["ls", "a", "b", " ", " ", "  ", "\\", "\\ ", "'", '"', "é", "日", "中文", "ø", "a\\ b", "'a b", '"x y', "\\'", '\\"', "|", "$", "\U0001F600"]
     for ln in gens.all_strings(["a", " ", "\\", "'", '"', "é"], 4 if tier == "quick" else 5):
         cases.append(Case("ews", [hx(ln)], {"gen": "ews-e"}))
@@ -269,6 +282,9 @@ def pty_session(cicada, sb, idx, entries, keys, env_extra):
     pid, fd = pty.fork()
     if pid == 0:
         try:
+            # a fixed window size: with the 0 x 0 window of a fresh pty the line editor's column arithmetic
+            # underflows on a wide character (width - 1) -- an artefact of the harness, not of a real terminal
+            fcntl.ioctl(0, termios.TIOCSWINSZ, struct.pack("HHHH", 24, 200, 0, 0))
             os.chdir(cwd)
             os.execve(cicada, [cicada], env)
         finally:
@@ -288,14 +304,18 @@ def pty_session(cicada, sb, idx, entries, keys, env_extra):
             out.extend(d)
         return True
 
+    eof = [False]
+
     def wait_for(cond, what):
         end = time.time() + TIMEOUT
         while time.time() < end:
             if cond():
                 return True
-            if not drain(0.02):
-                return cond()
-        return False
+            if eof[0]:
+                time.sleep(0.01)          # the terminal is closed: nothing left to read, keep polling the condition
+            elif not drain(0.02):
+                eof[0] = True
+        return cond()
 
     def done_logged():
         try:
@@ -321,7 +341,7 @@ def pty_session(cicada, sb, idx, entries, keys, env_extra):
     else:
         os.write(fd, keys.encode("utf-8") + b"\r" + b"argv __done__\r")
         if not wait_for(done_logged, "sentinel"):
-            err = "time-out waiting for the sentinel command after the completed line (screen: %r)" % bytes(out[-160:])
+            err = "time-out waiting for the sentinel command after the completed line (screen: %r)" % bytes(out[-900:])
         else:
             try:
                 os.write(fd, b"exit\r")
@@ -382,7 +402,10 @@ def process(tier, rng, cicada):
             cd = is_dir and r.chance(1, 2)
             prefix = stem[:1 + r.below(len(stem))]
             others = [o for o in (pty_name(r, r.choice(["z", "y", "w"])) for _ in range(r.below(5)))]
-        entries = [(name, is_dir)] + [(o, r.chance(1, 3)) for o in others if o != name]
+        entries = [(name, is_dir)]
+        for o in others:
+            if all(o != e[0] for e in entries):
+                entries.append((o, r.chance(1, 3)))
         if is_dir and r.chance(1, 2):
             entries.append((name + "/inner", False))
         cmdw = "cd" if cd else "argv"
